@@ -122,6 +122,9 @@ func TestVerifC19(t *testing.T) {
 		{name: "same-track-two-segments", prior: []c19Upload{up("ch1", v, "init"), up("ch1", v, "0")}, threads: [][]c19Upload{{up("ch1", v, "1")}, {up("ch1", v, "2")}}},
 		{name: "restarted-same-track", restart: true, prior: []c19Upload{up("ch1", v, "init"), up("ch1", a, "init"), up("ch1", v, "0")}, threads: [][]c19Upload{{up("ch1", v, "1")}, {up("ch1", v, "2")}}},
 		{name: "restarted-init+media", restart: true, prior: []c19Upload{up("ch1", v, "init"), up("ch1", v, "0")}, threads: [][]c19Upload{{up("ch1", v, "init")}, {up("ch1", v, "1")}}},
+		// raw mode (no parsing, files are numbered by arrival): overlapping uploads of one track, and of two tracks
+		{name: "raw-mode-same-track", cfg: &Config{Channels: []ChannelConfig{{Name: "ch1", ReceiveNrRawSegments: 10}}}, threads: [][]c19Upload{{up("ch1", v, "1")}, {up("ch1", v, "2")}}},
+		{name: "raw-mode-two-tracks", cfg: &Config{Channels: []ChannelConfig{{Name: "ch1", ReceiveNrRawSegments: 10}}}, threads: [][]c19Upload{{up("ch1", v, "1"), up("ch1", v, "2")}, {up("ch1", a, "1")}}},
 		{name: "media-of-two-tracks", prior: []c19Upload{up("ch1", v, "init"), up("ch1", a, "init")}, threads: [][]c19Upload{{up("ch1", v, "0"), up("ch1", v, "1")}, {up("ch1", a, "0"), up("ch1", a, "1")}}},
 	}
 	bound := 2
